@@ -325,7 +325,12 @@ class PluginGroup(Generic[T], metaclass=PluginGroupMeta):
         ret = self._ENTRY_POINTS[ep_name].load()
         self._LOADED_PLUGINS[ref] = ret
 
-        self._load_plugin(ep_name, ret)
+        try:
+            self._load_plugin(ep_name, ret)
+        except Exception:
+            # failed the checks -> is not loaded (and must not be handed out later)
+            del self._LOADED_PLUGINS[ref]
+            raise
 
     def _explicit_plugin_deps(self, plugin) -> Set[AnyPluginRef]:
         """Return all plugin dependencies that must be taken into account."""
